@@ -24,15 +24,21 @@ STATES = {'sir': ['susceptible', 'infected', 'recovered'], 'sis': ['susceptible'
 
 
 def diseases_of(simc):
+    if simc.get('zoo_diseases') is not None:      # a zoo base simulation (c20_zoo.py): module names as configured there
+        return list(simc['zoo_diseases'])
     return [simc['disease']] + ([simc['disease2']] if simc.get('disease2') else [])
 
 
 def all_states(simc):
     """ [(disease, state)] in a fixed order; the model numbers state arrays 10*disease_index + state_index """
+    if simc.get('zoo_states') is not None:        # Boolean states found on the zoo entry's diseases by a dry initialisation
+        return [tuple(x) for x in simc['zoo_states']]
     return [(d, st) for d in diseases_of(simc) for st in STATES[d]]
 
 
 def state_code(simc, d, st):
+    if simc.get('zoo_states') is not None:
+        return 10 * diseases_of(simc).index(d) + [s for dd, s in all_states(simc) if dd == d].index(st)
     return 10 * diseases_of(simc).index(d) + STATES[d].index(st)
 
 
@@ -486,8 +492,8 @@ def make_snap(case):
                 s['flags'][flag_key(d, st)] = sorted(int(u) for u in getattr(dz, st).uids)
             else:
                 s['flags'][flag_key(d, st)] = np.nonzero(np.asarray(getattr(dz, st).raw[:n]))[0].tolist()
-        dis = sim.diseases['sir'] if 'sir' in diseases_of(simc) else sim.diseases[0]
-        s['rs'] = np.asarray(dis.rel_sus.raw[:n], dtype=float).copy()
+        dis = sim.diseases['sir'] if 'sir' in diseases_of(simc) else (sim.diseases[0] if len(sim.diseases) else None)
+        s['rs'] = np.asarray(dis.rel_sus.raw[:n], dtype=float).copy() if hasattr(dis, 'rel_sus') else np.ones(n)   # (zoo: no disease / NCD)
         if not after:
             ek, el = eval_elig(case['elig'], sim)
             s['elig'] = (ek, el)
